@@ -1121,6 +1121,306 @@ theorem float_logic_sci_partial (mant ex : Bytes) (d : Dec) (x : Int) (hm : 101 
 example : strToFloatRow ("-1.25e-7".toList.map Char.toNat) = some ⟨-125, -9⟩ := by decide
 
 
+
+/-! ### the non-ragged paths and optional columns -/
+
+/-- **C18.parse_single**: the non-ragged path — one unsigned digit string (any leading zeros, any
+length) whose value fits int64 parses to its value -/
+theorem parse_single (s : Bytes) (v : Nat) (h : specNat s = some v) (hr : int64 (v : Int)) :
+    strToInt1 s = some (v : Int) := by
+  obtain ⟨_, hall, rfl⟩ := specNat_some s v h
+  unfold strToInt1
+  rw [omap_digitVal s hall]
+  have hg : (fun (x : Nat × Int) => (x.1 : Int) * 10 ^ x.2.toNat) = g := rfl
+  have hs : (((s.map (· - 48)).zip (countdown s.length)).map g).sum = rowSum (s.map (· - 48)) := by
+    unfold rowSum; rw [List.length_map]
+  simp only [hg, hs, rowSum_eq]
+  rw [wrap64_id _ hr]
+
+theorem ofDigits_zeros (k : Nat) (ds : List Nat) : ofDigits (List.replicate k 0 ++ ds) = ofDigits ds := by
+  induction k with
+  | zero => rfl
+  | succ n ih => rw [List.replicate_succ, List.cons_append, ofDigits_zero_cons, ih]
+
+theorem allDigits_pad (k : Nat) (r : Bytes) (h : allDigits r = true) :
+    allDigits (List.replicate k 48 ++ r) = true := by
+  unfold allDigits at h ⊢
+  simp only [List.all_append, Bool.and_eq_true, h, and_true, List.all_eq_true]
+  intro b hb
+  have := List.eq_of_mem_replicate hb
+  subst this; decide
+
+theorem matrix_row (k : Nat) (r : Bytes) (h : allDigits r = true) :
+    omap digitVal (List.replicate k 48 ++ r) = some (List.replicate k 0 ++ r.map (· - 48)) := by
+  rw [omap_digitVal _ (allDigits_pad k r h)]
+  simp
+
+/-- **C18.digit_matrix**: the fixed-width digit matrix used for integer columns of files — every
+column of unsigned digit strings of any mix of widths parses to its values (the `'0'` fill on the
+left never changes a value) -/
+theorem digit_matrix (rows : List Bytes) (vs : List Nat) (h : omap specNat rows = some vs)
+    (hr : ∀ v ∈ vs, int64 (v : Int)) : strToIntMatrix rows = some (vs.map Int.ofNat) := by
+  unfold strToIntMatrix digitMatrix
+  obtain ⟨W, hW⟩ : ∃ W, W = (rows.map List.length).foldl max 0 := ⟨_, rfl⟩
+  rw [← hW]
+  have hall : ∀ r ∈ rows, (specNat r).isSome := (omap_isSome_iff specNat rows).mp (by rw [h]; rfl)
+  have hvs := omap_getD specNat rows vs 0 h
+  have hrows : omap (fun r => omap digitVal r) (rows.map (fun r => List.replicate (W - r.length) 48 ++ r))
+      = some (rows.map (fun r => List.replicate (W - r.length) 0 ++ r.map (· - 48))) := by
+    have : ∀ (l : List Bytes), (∀ r ∈ l, (specNat r).isSome) →
+        omap (fun r => omap digitVal r) (l.map (fun r => List.replicate (W - r.length) 48 ++ r))
+          = some (l.map (fun r => List.replicate (W - r.length) 0 ++ r.map (· - 48))) := by
+      intro l hl
+      induction l with
+      | nil => rfl
+      | cons r rs ih =>
+        obtain ⟨u, hu⟩ := Option.isSome_iff_exists.mp (hl r (by simp))
+        obtain ⟨_, hd, _⟩ := specNat_some r u hu
+        simp only [List.map_cons]
+        exact omap_cons_some _ _ _ _ _ (matrix_row _ r hd) (ih (fun x hx => hl x (by simp [hx])))
+    exact this rows hall
+  rw [hrows]
+  simp only [List.map_map, Option.some.injEq]
+  rw [hvs, List.map_map]
+  apply List.map_congr_left
+  intro r hrm
+  obtain ⟨u, hu⟩ := Option.isSome_iff_exists.mp (hall r hrm)
+  obtain ⟨_, hd, hval⟩ := specNat_some r u hu
+  simp only [Function.comp, hu, Option.getD_some]
+  have hg : (fun (x : Nat × Int) => (x.1 : Int) * 10 ^ x.2.toNat) = g := rfl
+  have hs : ∀ ds : List Nat, ((ds.zip (countdown ds.length)).map g).sum = rowSum ds := fun _ => rfl
+  rw [hg, hs, rowSum_eq, ofDigits_zeros, ← hval]
+  apply wrap64_id
+  apply hr
+  rw [hvs]
+  exact List.mem_map.mpr ⟨r, hrm, by rw [hu]; rfl⟩
+
+
+
+theorem specParse_of_unsigned (r : Bytes) (v : Int) (hn : isNegRow r = false) (hp : isPosRow r = false)
+    (h : specParse r = some v) : ∃ u : Nat, specNat r = some u ∧ v = (u : Int) := by
+  cases r with
+  | nil => simp [specParse, specNat] at h
+  | cons b t =>
+    have hb1 : b ≠ 45 := by intro hc; subst hc; simp [isNegRow] at hn
+    have hb2 : b ≠ 43 := by intro hc; subst hc; simp [isPosRow] at hp
+    rw [specParse_unsigned b t hb1 hb2] at h
+    cases hu : specNat (b :: t) with
+    | none => simp [hu] at h
+    | some u => simp only [hu, Option.some.injEq] at h; exact ⟨u, rfl, h.symm⟩
+
+/-- **C18.column_ints**: an integer column of a file (fields of any mix of widths; signed fields
+switch the whole column to the ragged path) parses to the values of its fields -/
+theorem column_ints (rows : List Bytes) (vs : List Int) (h : omap specParse rows = some vs)
+    (hr : ∀ v ∈ vs, int64 v) : columnInts rows = some vs := by
+  unfold columnInts
+  by_cases hs : rows.any (fun r => isNegRow r || isPosRow r) = true
+  · simp only [hs, if_true]; exact parse_int rows vs h hr
+  · simp only [hs, Bool.false_eq_true, if_false]
+    have hun : ∀ r ∈ rows, isNegRow r = false ∧ isPosRow r = false := by
+      intro r hrm
+      have : (isNegRow r || isPosRow r) = false := by
+        apply Bool.eq_false_iff.mpr
+        intro hc
+        exact hs (List.any_eq_true.mpr ⟨r, hrm, hc⟩)
+      simpa using this
+    have key : ∀ (l : List Bytes) (ws : List Int), (∀ r ∈ l, isNegRow r = false ∧ isPosRow r = false) →
+        omap specParse l = some ws → ∃ us : List Nat, omap specNat l = some us ∧ ws = us.map Int.ofNat := by
+      intro l
+      induction l with
+      | nil => intro ws _ hw; simp at hw; subst hw; exact ⟨[], rfl, rfl⟩
+      | cons r rs ih =>
+        intro ws hl hw
+        obtain ⟨v, vs', hv, hvs', rfl⟩ := omap_cons_eq_some _ r rs ws hw
+        obtain ⟨u, hu, rfl⟩ := specParse_of_unsigned r v (hl r (by simp)).1 (hl r (by simp)).2 hv
+        obtain ⟨us, hus, rfl⟩ := ih vs' (fun x hx => hl x (by simp [hx])) hvs'
+        exact ⟨u :: us, omap_cons_some _ _ _ _ _ hu hus, rfl⟩
+    obtain ⟨us, hus, rfl⟩ := key rows vs hun h
+    exact digit_matrix rows us hus (by
+      intro u hu
+      exact hr _ (List.mem_map.mpr ⟨u, hu, rfl⟩))
+
+theorem fill_spec (m : Int) (f : Bytes → Int) (rows : List Bytes) :
+    fillMissing m rows ((rows.filter (fun r => !isMissing r)).map f)
+      = rows.map (fun r => if isMissing r then m else f r) := by
+  induction rows with
+  | nil => rfl
+  | cons r rs ih =>
+    by_cases hm : isMissing r = true
+    · simp [fillMissing, hm, ih]
+    · have hm' : isMissing r = false := by simpa using hm
+      simp [fillMissing, hm', ih]
+
+/-- **C18.parse_missing**: an optional integer column — absent fields (empty or a lone `'.'`) become
+the missing value, every other field its value, position by position -/
+theorem parse_missing (rows : List Bytes) (m : Int)
+    (h : ∀ r ∈ rows, isMissing r = true ∨ ∃ v, specParse r = some v ∧ int64 v) :
+    strToIntWithMissing rows m = some (rows.map (fun r => if isMissing r then m else (specParse r).getD 0)) := by
+  unfold strToIntWithMissing
+  obtain ⟨present, hp⟩ : ∃ present, present = rows.filter (fun r => !isMissing r) := ⟨_, rfl⟩
+  rw [← hp]
+  have hval : ∀ r ∈ present, ∃ v, specParse r = some v ∧ int64 v := by
+    intro r hr
+    rw [hp, List.mem_filter] at hr
+    rcases h r hr.1 with hm | hv
+    · simp [hm] at hr
+    · exact hv
+  have hparse : strToInt present = some (present.map (fun r => (specParse r).getD 0)) ∨ present = [] := by
+    by_cases he : present = []
+    · right; exact he
+    · left
+      apply parse_int
+      · apply omap_some_map
+        intro r hr
+        obtain ⟨v, hv, _⟩ := hval r hr
+        rw [hv]; rfl
+      · intro v hv
+        obtain ⟨r, hr, rfl⟩ := List.mem_map.mp hv
+        obtain ⟨w, hw, hi⟩ := hval r hr
+        rw [hw]; exact hi
+  have hvals : (if present = [] then some [] else strToInt present)
+      = some (present.map (fun r => (specParse r).getD 0)) := by
+    rcases hparse with hq | hq
+    · by_cases he : present = []
+      · simp [he]
+      · simp [he, hq]
+    · simp [hq]
+  simp only [hvals, Option.some.injEq]
+  rw [hp]
+  exact fill_spec m _ rows
+
+example : strToIntWithMissing ["12".toList.map Char.toNat, ".".toList.map Char.toNat, [], "-7".toList.map Char.toNat] (-1)
+    = some [12, -1, -1, -7] := by decide
+
+
+
+/-! ### the float logic against the grammar parser `specFloat` -/
+
+theorem findByte_some (b : Nat) (s : Bytes) (c : Nat) (h : findByte b s = some c) :
+    s = s.take c ++ b :: s.drop (c + 1) ∧ b ∉ s.take c := by
+  unfold findByte at h
+  simp only at h
+  split at h
+  · rename_i hlt
+    simp only [Option.some.injEq] at h
+    subst h
+    induction s with
+    | nil => simp at hlt
+    | cons x xs ih =>
+      by_cases hx : x = b
+      · subst hx; simp
+      · have hxb : (x == b) = false := by simpa using hx
+        have hlt' : xs.idxOf b < xs.length := by
+          simp only [List.idxOf_cons, hxb, cond_false, List.length_cons] at hlt; omega
+        obtain ⟨i1, i2⟩ := ih hlt'
+        simp only [List.idxOf_cons, hxb, cond_false, List.take_succ_cons, List.drop_succ_cons, List.cons_append,
+          List.mem_cons, not_or]
+        refine ⟨?_, fun hc => hx hc.symm, i2⟩
+        congr 1
+  · simp at h
+
+theorem findByte_none_not_mem (b : Nat) (s : Bytes) (h : findByte b s = none) : b ∉ s := by
+  unfold findByte at h
+  simp only at h
+  split at h
+  · simp at h
+  · rename_i hge
+    intro hm
+    exact hge (List.idxOf_lt_length_of_mem hm)
+
+theorem specDigits_some (t : Bytes) (u : Nat) (h : specDigits t = some u) :
+    allDigits t = true ∧ u = ofDigits (t.map (· - 48)) := by
+  unfold specDigits at h
+  split at h
+  · rename_i hc; simp at h; exact ⟨hc, h.symm⟩
+  · simp at h
+
+/-- the unsigned mantissa, after any sign, is evaluated to the value the grammar gives it -/
+theorem mantissa_eq (sg : Sign) (r : Bytes) (dm : Dec) (h : specMantissa r = some dm) :
+    decimalRow (sg.bytes ++ r) = some ⟨sg.factor * dm.m, dm.e⟩ := by
+  unfold specMantissa at h
+  cases hf : findByte 46 r with
+  | none =>
+    simp only [hf] at h
+    cases hv : specNat r with
+    | none => simp [hv] at h
+    | some v =>
+      simp only [hv, Option.some.injEq] at h
+      subst h
+      obtain ⟨hne, hall, rfl⟩ := specNat_some r v hv
+      exact (float_logic_partial sg r [] hall rfl).2 hne
+  | some c =>
+    simp only [hf] at h
+    obtain ⟨hdec, _⟩ := findByte_some 46 r c hf
+    split at h
+    · simp at h
+    · rename_i hne
+      cases hi : specDigits (r.take c) with
+      | none => simp [hi] at h
+      | some i =>
+        cases hfr : specDigits (r.drop (c + 1)) with
+        | none => simp [hi, hfr] at h
+        | some f =>
+          simp only [hi, hfr, Option.some.injEq] at h
+          subst h
+          obtain ⟨hI, rfl⟩ := specDigits_some _ i hi
+          obtain ⟨hF, rfl⟩ := specDigits_some _ f hfr
+          have hne' : r.take c ++ r.drop (c + 1) ≠ [] := by
+            intro hc
+            apply hne
+            simpa using hc
+          have := (float_logic_partial sg (r.take c) (r.drop (c + 1)) hI hF).1 hne'
+          rw [List.append_assoc, ← hdec] at this
+          exact this
+
+theorem signed_eq (s : Bytes) (d : Dec) (h : specSigned s = some d) : decimalRow s = some d := by
+  unfold specSigned at h
+  split at h
+  · rename_i r
+    obtain ⟨dm, hdm, rfl⟩ := Option.map_eq_some_iff.mp h
+    have := mantissa_eq Sign.minus r dm hdm
+    simpa [Sign.bytes, Sign.factor] using this
+  · rename_i r
+    have := mantissa_eq Sign.plus r d h
+    simpa [Sign.bytes, Sign.factor] using this
+  · have := mantissa_eq Sign.none s d h
+    simpa [Sign.bytes, Sign.factor] using this
+
+/-- **C18.float_logic_spec_partial**: for every text the numeral grammar `[±]I[.F][e[±]X]` accepts
+(exponent within int64), the float parser's logic denotes exactly the numeral's value. Together
+with `repr` producing a text of this grammar whose value rounds to the double (Python's guarantee,
+an external), this is the logic half of "formatting then parsing returns the double"; the rounding
+of the parser's own floating-point operations is what is only corresponded. -/
+theorem float_logic_spec_partial (t : Bytes) (d : Dec) (h : specFloat t = some d)
+    (hx : ∀ c, findByte 101 t = some c → ∀ x, specParse (t.drop (c + 1)) = some x → int64 x) :
+    strToFloatRow t = some d := by
+  unfold specFloat at h
+  cases hf : findByte 101 t with
+  | none =>
+    simp only [hf] at h
+    have hnm := findByte_none_not_mem 101 t hf
+    unfold strToFloatRow
+    have : t.contains 101 = false := by simpa using hnm
+    simp only [this, Bool.false_eq_true, if_false]
+    exact signed_eq t d h
+  | some c =>
+    simp only [hf] at h
+    obtain ⟨hdec, hnm⟩ := findByte_some 101 t c hf
+    cases hs : specSigned (t.take c) with
+    | none => simp [hs] at h
+    | some dm =>
+      cases hp : specParse (t.drop (c + 1)) with
+      | none => simp [hs, hp] at h
+      | some x =>
+        simp only [hs, hp, Option.some.injEq] at h
+        subst h
+        have := float_logic_sci_partial (t.take c) (t.drop (c + 1)) dm x hnm (signed_eq _ dm hs) hp (hx c hf x hp)
+        rw [← hdec] at this
+        exact this
+
+example : specFloat ("+12.5e-3".toList.map Char.toNat) = some ⟨125, -4⟩ := by decide
+
+
 /-! ### the rule shipped before the repair is refuted (concrete witnesses, replayed on the code) -/
 
 /-- `ints_to_strings([-2^63])` gave `'-2'`: `np.abs` wraps, `max(·,1) = 1`, `log10(1.0) = 0` exactly -/
